@@ -257,6 +257,25 @@ class Check(PropertyCheck):
                                 f"content equality is {want}"))
             if hash(x) != hash(z):
                 res.append(("hash", "equal operations of a subclass hash differently"))
+
+            # a subclass that adds behaviour but no data, next to a plain operation with the same content: whatever == says, it says
+            # it both ways, and if they are equal they hash equally (and find each other in a dictionary)
+            class TimedOperation(jsl.Operation):
+                __slots__ = ()
+
+                def slack(self, now):
+                    return now - self.duration
+            dd = 5 + r.randint(0, 3)
+            plain, timed = jsl.Operation(r.randint(0, 1), dd), TimedOperation(0, dd)
+            for o in (plain, timed):
+                o.job_id, o.position_in_job, o.operation_id = 1, 2, 7
+            same = plain.machines == timed.machines
+            if (plain == timed) != (timed == plain):
+                res.append(("eq-subclass", f"plain operation vs data-less subclass: == is {plain == timed} one way, {timed == plain} the other"))
+            elif (plain == timed) and not same:
+                res.append(("eq-subclass", "plain operation vs data-less subclass with other machines: =="))
+            elif plain == timed and (hash(plain) != hash(timed) or {plain: 1}.get(timed) != 1):
+                res.append(("hash", "a plain operation and an operation of a data-less subclass are equal but hash differently"))
         elif line == "mark other" and "pair" in ctx:
             x, y = ctx["pair"]
             for other in (None, 0, "x", (1, 2), [x], object()):
